@@ -607,6 +607,119 @@ def h_network(ctx, n, prefix=()):
         return obs
 
 
+def h_network_blocking(ctx, n):
+    """the same with the library's other dispatcher (SocketConnectionDispatcher: blocking connect + read loop, which the caller of connect
+    runs): the connection's life is a script chosen by the solver -- connect outcome, then incoming chunks, a chunk whose handling raises
+    in an upper layer (a non-I/O exception, as the authentication layer does for an unknown stream error), a close or a reset by the peer.
+    Whatever ends the connection: it is announced down exactly once, the layer is disconnected, and a later connect request works"""
+    import queue, threading
+    from checks import netdouble as ND
+    import yowsup.layers as L
+    from yowsup.stacks.yowstack import YowStack
+    from yowsup.layers.network import YowNetworkLayer
+    w = ND.World()
+    log = []
+
+    class Probe(L.YowLayer):
+        def __init__(self):
+            super(Probe, self).__init__()
+            self.got = []
+
+        def receive(self, data):
+            if bytes(data).startswith(b"BOOM"):
+                raise NotImplementedError("an upper layer cannot handle this stanza")
+            self.got.append(bytes(data))
+
+        def send(self, data):
+            self.toLower(data)
+
+        @L.EventCallback(YowNetworkLayer.EVENT_STATE_CONNECTED)
+        def on_up(self, ev):
+            log.append("up")
+
+        @L.EventCallback(YowNetworkLayer.EVENT_STATE_DISCONNECTED)
+        def on_down(self, ev):
+            log.append("down")
+
+    class Sockets(ND.FakeSocketModule):
+        def socket(self, *a, **k):
+            s_ = ND.FakeSocket(self.world)
+            s_.blocking_rx = queue.Queue()
+            return s_
+    with ND.Patched(w) as fake:
+        import yowsup.layers.network.dispatcher.dispatcher_socket as ds
+        ds.socket = Sockets(w)
+        st = YowStack((YowNetworkLayer, Probe), reversed=False)
+        net, probe = st.getLayer(0), st.getLayer(1)
+        st.setProp(YowNetworkLayer.PROP_ENDPOINT, ("e1.whatsapp.net", 443))
+        st.setProp(YowNetworkLayer.PROP_DISPATCHER, YowNetworkLayer.DISPATCHER_SOCKET)
+        obs = []
+        threads = []
+
+        def connect(tag):
+            """a connect request on its own thread (the call only returns when the connection is over)"""
+            err = {}
+
+            def body():
+                try:
+                    net.getLayerInterface().connect()
+                except BaseException as e:
+                    err["e"] = e
+            t = threading.Thread(target=body, daemon=True)
+            n0 = len(w.sockets)
+            t.start()
+            # wait until the reader blocks in recv (connection up) or the call has returned (attempt over)
+            for _ in range(400):
+                if not t.is_alive() or (len(w.sockets) > n0 and w.sockets[-1].idle.is_set()):
+                    break
+                t.join(0.01)
+            threads.append(t)
+            return t, err
+
+        def settle(t, sock):
+            for _ in range(400):
+                if not t.is_alive() or sock.idle.is_set():
+                    break
+                t.join(0.01)
+        for round_ in range(2):
+            tag = "connection %d" % (round_ + 1)
+            w.connect_mode = ctx.choice("connect%d" % round_, ["now", "refused", "gaierror"])
+            mark = len(log)
+            t, err = connect(tag)
+            run_loop(st)
+            if w.connect_mode != "now":
+                obs.append((tag + ": a failing connect attempt ends the call, at most one down announcement, layer disconnected",
+                            not t.is_alive() and log[mark:].count("down") <= 1 and log[mark:].count("up") == 0 and not net.connected))
+                continue
+            sock = w.sockets[-1]
+            obs.append((tag + ": announced up exactly once", log[mark:].count("up") == 1 and bool(net.connected)))
+            ended = False
+            for i in range(n):
+                item = ctx.choice("incoming%d_%d" % (round_, i), ["chunk", "chunk-whose-handling-raises", "peer-close", "peer-reset", "send-then-chunk"])
+                if item == "send-then-chunk":
+                    probe.send(b"<payload>")
+                    item = "chunk"
+                sock.idle.clear()
+                sock.blocking_rx.put({"chunk": b"data%d" % i, "chunk-whose-handling-raises": b"BOOM", "peer-close": b"", "peer-reset": ConnectionResetError(104, "Connection reset by peer")}[item])
+                settle(t, sock)
+                run_loop(st)
+                if item != "chunk":
+                    ended = True
+                    break
+                obs.append((tag + ": chunk %d handed up once" % i, probe.got[-1:] == [b"data%d" % i]))
+            if not ended:
+                sock.idle.clear()
+                st.broadcastEvent(L.YowLayerEvent(YowNetworkLayer.EVENT_STATE_DISCONNECT))
+                settle(t, sock)
+                t.join(2)
+                run_loop(st)
+            t.join(2)
+            obs.append((tag + ": however it ends, the connect call returns, the connection is announced down exactly once and the layer is disconnected (%s, alive=%s, connected=%s, error=%r)"
+                        % (log[mark:], t.is_alive(), net.connected, err.get("e")), not t.is_alive() and log[mark:].count("down") == 1 and not net.connected))
+        obs.append(("nothing was ever written to a socket that is closed or not connected (%s)" % w.violations[:1], not w.violations))
+        return obs
+
+
 def cases(tier):
     q = tier == "quick"
     up = ("connect-request", "connected")
@@ -637,6 +750,7 @@ def cases(tier):
     for third in ("send", "peer-close", "disconnect-request", "incoming-handler-raises"):
         cs.append(dict(name="network[asyncore dispatcher,prefix=up+%s,len<=%d]" % (third, 6 if q else 8), fn=h_network, args=(6 if q else 8, nup + (third,)), max_paths=2000000,
                        timeout_s=900 if q else 3400, keep_samples=8, weight=150))
+    cs.append(dict(name="network[socket dispatcher,2 connections,<=%d incoming]" % (2 if q else 3), fn=h_network_blocking, args=(2 if q else 3,), max_paths=200000, timeout_s=900, keep_samples=12, weight=100))
     if not q:
         for fourth in ("ping-tick", "peer-close", "stream-error-ack", "disconnect-request"):
             cs.append(dict(name="history[prefix=up+success+%s,len<=11]" % fourth, fn=h_history, args=(11, up + ("success", fourth)), max_paths=4000000, timeout_s=3400, keep_samples=6, weight=400))
